@@ -47,7 +47,7 @@ func genC13(rt *rapid.T) C13Case {
 	nm := rapid.IntRange(0, 2).Draw(rt, "nmut")
 	for i := 0; i < nm; i++ {
 		pool := []string{"op-target-unknown", "op-target-empty", "op-target-noplugin", "prefix-target-unknown", "path-target-differs", "update-interior", "update-nonmodel",
-			"key-mismatch", "key-badchars", "ext-malformed", "no-ops", "more-ops", "second-target", "delete-nonmodel", "delete-textual-stub", "json-root", "json-at-path"}
+			"key-mismatch", "key-badchars", "delete-key-badchars", "override-unknown-target", "override-known-target", "ext-malformed", "no-ops", "more-ops", "second-target", "delete-nonmodel", "delete-textual-stub", "json-root", "json-at-path"}
 		if c.Limit > 0 {
 			pool = pool[:len(pool)-2] // how many operations a JSON value counts for is not documented
 		}
@@ -120,6 +120,18 @@ func applyC13Mutation(rt *rapid.T, s *SetSpec, m string) {
 		bad := []string{"a b", "a,b", "a+b", "a(b"}[rapid.IntRange(0, 3).Draw(rt, "badkey")]
 		p := model.Path{{Name: "l1", Keys: map[string]string{"id": bad}}, {Name: "v"}}
 		s.Ops = append(s.Ops, model.Op{Kind: "update", Target: firstTarget(s), Path: relTo(s, p), Val: &v})
+	case "delete-key-badchars":
+		bad := []string{"a b", "a,b", "a+b", "a(b"}[rapid.IntRange(0, 3).Draw(rt, "badkey")]
+		p := model.Path{{Name: "l1", Keys: map[string]string{"id": bad}}}
+		s.Ops = append(s.Ops, model.Op{Kind: "delete", Target: firstTarget(s), Path: relTo(s, p)})
+	case "override-unknown-target":
+		// naming type and version for a target does not make the target exist
+		if i := pick(); i >= 0 && s.PrefixTarget == "" {
+			s.Ops[i].Target = "nosuch"
+			s.Ext = append(s.Ext, OverrideExt("nosuch", "m1", "1.0.0"))
+		}
+	case "override-known-target":
+		s.Ext = append(s.Ext, OverrideExt("t1", "m1", "1.0.0"))
 	case "ext-malformed":
 		id := []uint32{111, 112}[rapid.IntRange(0, 1).Draw(rt, "extid")]
 		s.Ext = append(s.Ext, ExtSpec{ID: id, Msg: []byte{0xff, 0xff, 0xff}})
@@ -209,7 +221,7 @@ func expectC13(s SetSpec, limit int, known map[string]bool, noPlugin map[string]
 		}
 		for _, e := range o.Path {
 			for _, kv := range e.Keys {
-				if !keyAllowed.MatchString(kv) && o.Kind != "delete" {
+				if !keyAllowed.MatchString(kv) {
 					return fmt.Sprintf("key value %q has characters outside the accepted set", kv), nil, nil
 				}
 			}
